@@ -65,6 +65,13 @@ chk("C05", E1, "model_checking",
     "For 10 suite classes x CID/padding/short-header layouts x payload lengths x direction: every single-bit flip of the whole datagram, every truncation, junk extension, every header-field edit, splice, reflection, epoch-0 forms, keyed wrong-CID records, CBC block runs and padding malleation, injected into an established connection (chained and one-per-fresh-connection); oracle: nothing delivered, nothing emitted, the genuine record still accepted exactly once afterwards. 155k executions quick / 656k thorough.",
     "stateless model checking of the implementation: exhaustive single-record forgery enumeration against the real receiver")
 
+chk("C07", E1, "model_checking",
+    "Every (suite/version/CID configuration, writing side, position of the application's Write(marker) before / during / after the handshake, follow-up in {none, second Write, Close, injected unprotected application data}): every datagram of the execution is searched raw for the marker, the decrypted Finished bodies and (1.3) protected handshake bytes; every record is decoded with reference keys and checked against the never-unprotected policy (no application data or Finished at epoch 0; DTLS 1.3: no plaintext handshake other than ClientHello/ServerHello/HRR, no plaintext ACK); Read never returns data that arrived unprotected; the exporter equals the reference exporter keyed by the session secret and differs from every catalogued public-only derivation.",
+    "stateless model checking of the implementation: exhaustive placement of application writes with a wire-level plaintext monitor and a reference-keyed decoder")
+chk("C09", E1, "model_checking",
+    "Every (suite class x CID x version, sending side, ordered selection of <=3 (4) concurrent operations from {3 Writes, peer retransmission arriving, UpdateKeys, Close} started at one quiescent point, emission hold none/0/1/2 with a Write queued behind the held write lock) plus the 2^48 boundary; every record of the execution is decoded with reference keys and (epoch, sequence) must strictly increase per sender and epoch in emission order; writes past 2^48-1 must fail and emit nothing. Lock-granularity interleavings are not enumerated here; export/import continuity is C19's.",
+    "stateless model checking of the implementation: exhaustive concurrent-operation placement with a reference-keyed (epoch, sequence) monitor")
+
 props = [json.loads(l) for l in open('/verif/properties.jsonl')]
 PENDING = "check not built yet in this session (planned in DESIGN.md §5); not a claim that the technique cannot apply"
 NA = {}
